@@ -7,9 +7,6 @@ of this property were written against (`Tea.Doc`). Written by checklib/mkbridges
 -/
 namespace Tea.Props.Bridge.C06
 
-theorem body_standardRenderer_write : Tea.Gen.fact_body_standardRenderer_write = Tea.Doc.fact_body_standardRenderer_write := rfl
-theorem body_standardRenderer_repaint : Tea.Gen.fact_body_standardRenderer_repaint = Tea.Doc.fact_body_standardRenderer_repaint := rfl
-theorem body_standardRenderer_handleMessages : Tea.Gen.fact_body_standardRenderer_handleMessages = Tea.Doc.fact_body_standardRenderer_handleMessages := rfl
 theorem locks : Tea.Gen.fact_locks = Tea.Doc.fact_locks := rfl
 
 end Tea.Props.Bridge.C06
